@@ -146,7 +146,8 @@ pub fn generate(seed: u64, grammars: &[Grammar]) -> Scenario {
         }
     }
     let threads = 1 + rng.below(3);
-    let n_ops = 4 + rng.below(13);
+    // most runs are short; one in forty is a long history (a leak that needs many steps)
+    let n_ops = if rng.chance(1, 40) { 48 + rng.below(150) } else { 4 + rng.below(13) };
     let w_parse = 4 + rng.below(8);
     let w_reparse = rng.below(4);
     let w_clone = rng.below(3);
